@@ -118,6 +118,8 @@ class Sim:
         self.aborting = False
         self.abort_reason = None
         self._tls = threading.local()
+        # called in a task's own thread every time it gets the baton (per-process state of the code under test)
+        self.on_resume = None
 
     # ---------------------------------------------------------------- decisions / logging
     def choose(self, tag: str, n: int) -> int:
@@ -167,6 +169,8 @@ class Sim:
         try:
             if self.aborting:
                 raise SimAbort()
+            if self.on_resume is not None:
+                self.on_resume(task)
             task.result = task.fn()
         except SimAbort:
             pass
@@ -259,6 +263,8 @@ class Sim:
         me.sem.acquire()
         if self.aborting:
             raise SimAbort()
+        if self.on_resume is not None:
+            self.on_resume(me)
 
     def yield_point(self, tag: str = "y") -> None:
         """Possible context switch.  No-op when called outside a simulated task."""
